@@ -14,6 +14,7 @@ import (
 	"sort"
 	"strconv"
 	"strings"
+	"sync"
 
 	"github.com/ipfs/boxo/keystore"
 	ci "github.com/libp2p/go-libp2p/core/crypto"
@@ -136,8 +137,10 @@ func gen(r *vh.Rand, tier string, n int, emit func(vh.Case)) {
 				c.Ops = append(c.Ops, "has "+pick())
 			case k < 82:
 				c.Ops = append(c.Ops, "del "+pick())
-			case k < 94:
+			case k < 92:
 				c.Ops = append(c.Ops, "list")
+			case k < 94:
+				c.Ops = append(c.Ops, "race "+pick()+" "+vh.Pick(rr, keys)+" "+vh.Pick(rr, keys))
 			default:
 				c.Ops = append(c.Ops, "dump")
 			}
@@ -268,7 +271,7 @@ func exec(c vh.Case, o *vh.Out) {
 	caseInQuant := true
 	for _, line := range c.Ops {
 		f := strings.Fields(line)
-		if len(f) > 1 && f[0] != "cfg" && !strings.HasPrefix(f[0], "plant") && !inQuant(string(vh.UnHex(f[1]))) {
+		if len(f) > 1 && f[0] != "cfg" && f[0] != "race" && !strings.HasPrefix(f[0], "plant") && !inQuant(string(vh.UnHex(f[1]))) {
 			caseInQuant = false
 		}
 	}
@@ -424,6 +427,48 @@ func exec(c vh.Case, o *vh.Out) {
 				o.Fail("bad-filename", "after %s %q: %v", f[0], name, bad)
 			}
 			o.Emit("fs=%s mem=%s", rf, rm)
+		case "race":
+			// two goroutines Put the same name into the FS keystore at once (8 rounds, state restored after
+			// each): never both succeed, and the key that reports success is the one stored
+			name := string(vh.UnHex(f[1]))
+			first := ""
+			for round := 0; round < 8; round++ {
+				start := make(chan struct{})
+				var res [2]string
+				var wg sync.WaitGroup
+				for g := 0; g < 2; g++ {
+					wg.Add(1)
+					go func(g int) {
+						defer wg.Done()
+						<-start
+						res[g] = run(fsk, []string{"put", f[1], f[2+g]})
+					}(g)
+				}
+				close(start)
+				wg.Wait()
+				if res[0] == "ok" && res[1] == "ok" {
+					o.Fail("concurrent-put-both-succeeded", "race %q round %d: both Puts returned nil", name, round)
+				}
+				for g := 0; g < 2; g++ {
+					if res[g] == "ok" && res[1-g] != "ok" {
+						if got := run(fsk, []string{"get", f[1]}); got != "key:"+f[2+g] {
+							o.Fail("concurrent-put-lost-key", "race %q round %d: winner's key not stored (Get = %.40s)", name, round, got)
+						}
+					}
+				}
+				if res[0] == "ok" || res[1] == "ok" {
+					run(fsk, []string{"del", f[1]})
+				}
+				rs := []string{res[0], res[1]}
+				sort.Strings(rs)
+				if round == 0 {
+					first = strings.Join(rs, ",")
+				} else if strings.Join(rs, ",") != first && !(res[0] == "ok" && res[1] == "ok") {
+					o.Fail("concurrent-put-unstable", "race %q: round 0 gave %s, round %d gave %s", name, first, round, strings.Join(rs, ","))
+				}
+			}
+			o.Kind("race")
+			o.Emit("race %s", first)
 		case "dump":
 			inside, outside, _ := scan(root)
 			o.Emit("dump %s outside=%s", strings.Join(inside, ";"), strings.Join(outside, ";"))
